@@ -314,6 +314,9 @@ impl NetcodeClient {
                             self.last_packet_send_time = None;
                             self.last_packet_received_time = self.current_time;
                             self.challenge_token_sequence = 0;
+                            // The next server numbers its packets from zero again (under the same keys):
+                            // sequence numbers seen from the previous server must not reject them.
+                            self.replay_protection = ReplayProtection::new();
 
                             return Ok(());
                         }
